@@ -51,6 +51,7 @@ def _stage_ab(ctx):
             raise vlib.MachineryFailure(f"{cfg}: vacuous (no retry row or no DER row emitted)")
         enc = Enc(c)
         pending, n, identical = [], 0, 0
+        by_r = {}   # nonce clause: code r -> [(d, z, consumed draws, spec r)]
         with retarget(c):
             for row in rows:
                 if row[1] == "sign":
@@ -68,6 +69,7 @@ def _stage_ab(ctx):
                     if "err" in got or not _is_sig(got["ok"]):
                         ctx.violation("sign-raised", dict(case, got=str(got)))
                         continue
+                    by_r.setdefault(got["ok"][0], []).append((d, z, frozenset(used), want[0], draws))
                     if list(got["ok"]) == want[:2] and len(used) == want[2]:
                         identical += 1
                         continue
@@ -88,6 +90,24 @@ def _stage_ab(ctx):
                         ctx.violation("derdec-rejects-strict", dict(case, got=str(back)))
                     elif tuple(back["ok"]) != (rr, ss):
                         ctx.violation("derdec-wrong", dict(case, got=str(back)))
+        # nonce clause, exhaustively: two signatures that differ in key or message share r only if the source repeated a
+        # draw (or its negation, k and n-k have the same x) - or if the specification's own r values coincide (x mod n wrap)
+        nn = c["n"]
+        for rv, ents in by_r.items():
+            flagged = 0
+            for i in range(len(ents)):
+                for j in range(i + 1, len(ents)):
+                    a, b = ents[i], ents[j]
+                    if (a[0], a[1]) == (b[0], b[1]) or a[3] == b[3]:
+                        continue
+                    neg_b = {(nn - x) % nn for x in b[2]}
+                    if a[2] & b[2] or a[2] & neg_b:
+                        continue
+                    flagged += 1
+                    if flagged <= 3:
+                        ctx.violation("nonce-reused-across-signatures",
+                                      {"stage": "B", "curve": cn, "op": "signpair", "r": rv, "a": {"d": a[0], "z": a[1], "draws": a[4]},
+                                       "b": {"d": b[0], "z": b[1], "draws": b[4]}})
         if pending:   # not identical to the spec's loop: judge at the property's level with TLC on the small curve
             for i, e in enumerate(pending):
                 e["id"] = i
@@ -154,6 +174,13 @@ def _gen_c(ctx, rnd):
             continue
         sign_event(d, z, [k], f"short-s-{nbytes}")
     # nonce clause: pairs of signatures differing in key or message, made from fresh distinct draws, in ONE process
+    # boundary draws: a rejected draw (0) must not turn into somebody else's nonce
+    for cls, da, db in [("draw0-vs-draw1", [0, rnd.randrange(2, n - 1)], [1]), ("draw0-vs-draw-n-1", [0, rnd.randrange(2, n - 1)], [n - 1]),
+                        ("draw00-vs-draw1", [0, 0, rnd.randrange(2, n - 1)], [1]), ("draw0-vs-draw2", [0, rnd.randrange(3, n - 2)], [2])]:
+        r1 = sign_event(21, 300, da, "pair")
+        r2 = sign_event(22, 301, db, "pair")
+        if r1 is not None and r2 is not None:
+            add(dict(op="signpair", r1=enc.num(r1), r2=enc.num(r2)), cls)
     pairs = [("same-key-diff-msg", 11, 11, 100, 101), ("diff-key-same-msg", 11, 12, 100, 100), ("diff-both", 13, 14, 5, 6)]
     for cls, d1, d2, z1, z2 in pairs * (1 if quick else 10):
         k1 = rnd.randrange(2, n - 1)
